@@ -30,6 +30,11 @@ def cells(tier):
         out.append(cell(f"s{size} A3|cgroupA,B2|M2/1", sc, MON))
         sc = scen(pool(size), [[M("M", 3, 2)], [A("A", 2)], [CALL, A("B", 2)]], outcomes=["ret"])
         out.append(cell(f"s{size} M3/2|A2|call,B2", sc, MON))
+    for size in [1, 2]:
+        sc = scen(pool(size), [[A("A", 2)], [cancel(rid("A", 1)), A("B", 1)], [cancel(rid("A", 0))]], outcomes=["ret"], ecb="plain", ccb="plain")
+        out.append(cell(f"s{size} A2|cancelA1,B1|cancelA0 (early cancels)", sc, MON))
+    sc = scen(pool(2, "SimpleTaskPool", ecb="plain", ccb="plain"), [[S("S", 2)], [["stop", 1], S("T", 1)]], outcomes=["ret"])
+    out.append(cell("simple s2 S2|stop1,T1 (early stop)", sc, MON))
     sc = scen([pool(1), pool(2)], [[A("A", 1), ["gac"]], [A("B", 1, p=1)], [["new_pool"], A("C", 1, p=2)]], outcomes=["ret"])
     out.append(cell("pools a,b; close a; new pool c; tasks in b and c", sc, MON))
     if not q:
